@@ -94,7 +94,7 @@ SeedsOf(P, so) ==
 
 PatOf == "p2" :> "*2" @@ "p3" :> "*3" @@ "p4" :> "*4"
 
-NPruneOpts == 18
+NPruneOpts == 21
 ConfOf(P, so, po) ==
   LET first == P.procs[1]
       mid == P.procs[2]
@@ -123,4 +123,13 @@ ConfOf(P, so, po) ==
        [] po = 17 -> [B EXCEPT !.routines = <<[RE(first.name) EXCEPT !.hasBlock = TRUE, !.block = <<K("m?#*")>>]>>]
        [] po = 18 -> [B EXCEPT !.routines = <<[RE("m1") EXCEPT !.hasExpand = TRUE, !.expand = FALSE],
                                                [RE(mid.name) EXCEPT !.hasIgnore = TRUE, !.ignore = <<K(fullOf(tgt))>>]>>]
+       \* union rule: the global disable list also applies below a routine that has its OWN, different lists
+       [] po = 19 -> [B EXCEPT !.disable = <<K(tgt.name)>>,
+                               !.routines = <<[RE(mid.name) EXCEPT !.hasDisable = TRUE, !.disable = <<K("v_m1")>>]>>]
+       [] po = 20 -> [B EXCEPT !.disable = <<K(fullOf(tgt))>>,
+                               !.routines = <<[RE(mid.name) EXCEPT !.hasDisable = TRUE, !.disable = <<>>,
+                                                                   !.hasBlock = TRUE, !.block = <<K(first.name)>>]>>]
+       [] po = 21 -> [B EXCEPT !.disable = <<K(PatOf[tgt.name])>>,
+                               !.routines = <<[RE(fullOf(mid)) EXCEPT !.hasDisable = TRUE, !.disable = <<K("v_m2")>>,
+                                                                      !.hasIgnore = TRUE, !.ignore = <<K(first.name)>>]>>]
 =============================================================================
